@@ -20,6 +20,7 @@ import (
 	"math"
 	"net/http"
 	"os"
+	"runtime"
 	"strconv"
 	"strings"
 	"testing"
@@ -269,6 +270,9 @@ func (srv *simServer) start() {
 		defer func() {
 			srv.exited = true
 			if r := recover(); r != nil {
+				if fmt.Sprintf("%T", r) == "verifsim.crashSentinel" {
+					panic(r) // the kernel unwinding this task at teardown
+				}
 				if err, ok := r.(error); ok && srv.isBatchError(err) {
 					srv.fatal = err.Error()
 					verifsim.Probe("runner_fatal_batch_error")
@@ -277,7 +281,12 @@ func (srv *simServer) start() {
 					}
 					return
 				}
-				panic(r)
+				// a crash of the code under test (in production the runner process dies)
+				buf := make([]byte, 16384)
+				buf = buf[:runtime.Stack(buf, false)]
+				msg := fmt.Sprint(r)
+				srv.fatal = msg
+				srv.w.violate(srv.w.prop, "panic", "panic:"+panicKind(msg)+"@"+verifsim.StackRepoFunc(string(buf)), "%s: unrecovered panic in the run loop: %s\n%s", srv.name, msg, buf)
 			}
 		}()
 		srv.s.run(ctx)
@@ -424,6 +433,7 @@ type runWorld struct {
 	desc    []string
 	nextReq int
 	other   map[string]int // violations of the property that is not being checked in this run
+	tainted bool           // VERIF_IGNORE matched in this run
 }
 
 func (w *runWorld) note(f string, a ...any) {
@@ -455,9 +465,14 @@ func (w *runWorld) violate(prop, class, sig, f string, a ...any) {
 		w.other[prop+":"+sig]++
 		return
 	}
+	if w.tainted {
+		return
+	}
 	for _, ig := range verifIgnore {
 		if ig != "" && strings.Contains(sig, ig) {
+			// like a known finding: the run is counted and discarded, later symptoms of the same run too
 			w.other["ignored:"+sig]++
+			w.tainted = true
 			return
 		}
 	}
@@ -679,6 +694,22 @@ func (w *runWorld) client(ci int) {
 }
 
 // ---- the run -------------------------------------------------------------------------------
+
+func panicKind(msg string) string {
+	switch {
+	case strings.Contains(msg, "slice bounds out of range"):
+		return "slice-bounds"
+	case strings.Contains(msg, "index out of range"):
+		return "index-range"
+	case strings.Contains(msg, "nil pointer dereference"):
+		return "nil-deref"
+	case strings.Contains(msg, "sim backend"):
+		return "backend-misuse"
+	case strings.Contains(msg, "divide by zero"):
+		return "div-zero"
+	}
+	return "other"
+}
 
 func fatalClass(msg string) string {
 	switch {
